@@ -94,7 +94,13 @@ def run_case(c):
     py_ok = True
     why = []
     if c["mode"] == "tree":
-        root = build(c["tree"], cls)
+        if c.get("embed"):
+            top = make(cls, [["name", 4]] if cls is Node else [], None)
+            make(cls, [["name", 5]] if cls is Node else [], top)
+            mid = make(cls, [["name", 5]] if cls is Node else [], top)
+            root = build(c["tree"], cls, mid)
+        else:
+            root = build(c["tree"], cls)
         stores = read_itree(root, True)
         dictcls = collections.OrderedDict if c.get("ordered") else dict
         kw = {}
